@@ -183,4 +183,6 @@ P_Structure ==
 BoundedP == \A s \in Slots : Total(am[s]) <= MaxTotal /\ Len(pg[s].buf) <= MaxTotal
 
 PKeys == -3..5
+PKeysSmall == {-3, -2, 0, 1}
+PKeys3 == {-3, -2, 1}
 =============================================================================
